@@ -859,3 +859,4 @@ from runtime import scopes_e2e  # noqa: E402,F401  (registers the Calibrator-lev
 from runtime import scopes_loss  # noqa: E402,F401
 from runtime import scopes_ckpt  # noqa: E402,F401
 from runtime import scopes_rl  # noqa: E402,F401
+from runtime import replay_ckpt  # noqa: E402,F401
